@@ -7,7 +7,7 @@ ID = 'C15'
 HARNESS_BIN = 'c15'
 RUN_MODULE = 'Run.C15'
 REPO_BINS = ['sccache']
-THEOREMS = ['C15_frozen', 'C15_frozen_requests', 'C15_writes_refused', 'C15_hits_served', 'C15_hits_served_always', 'C15_miss_compiles',
+THEOREMS = ['C15_frozen', 'C15_frozen_requests', 'C15_writes_refused', 'C15_hits_served', 'C15_hits_served_always', 'C15_concurrent_lookups_served', 'C15_miss_compiles',
             'C15_mtime_touched', 'C15_rw_open_evicts', 'C15_mode_effective', 'C15_env_overrides_own_key_only',
             'C15_configured_read_only_frozen']
 ASSUMPTIONS = [
@@ -305,6 +305,82 @@ def config_stats(case, out):
             'result=' + (out[0].decode() if isinstance(out, list) and out and isinstance(out[0], bytes) else '?')]
 
 
+# ---------------------------------------------------------------- concurrent lookups leg
+
+BALLAST = 6000   # empty directories that make the real directory scan take tens of milliseconds
+
+
+def gen_conc(rng, n):
+    out = []
+    for ci in range(n):
+        keys = rng.shuffle(KEYS)
+        present = keys[:rng.range(2, 4)]
+        files = []
+        mts = rng.shuffle(list(range(1, 2 * len(present) + 1)))
+        for i, k in enumerate(present):
+            files.append([main_path(k), rng.choice([22, 30, 60]), mts[2 * i], 2 * i + 1])
+            if rng.chance(2, 3):
+                files.append([pp_path(k), rng.choice(PP_SIZES), mts[2 * i + 1], 2 * i + 2])
+        total = sum(f[1] for f in files)
+        fits = not rng.chance(1, 5)
+        cap = total + rng.choice([0, 1, 1000]) if fits else max(total // 2, 22)
+        lookups = []
+        for _ in range(rng.range(4, 8)):
+            k = rng.choice(present) if rng.chance(4, 5) else rng.choice(keys)
+            # when the directory does not fit, which entries are indexed depends on mtimes that lookups of the
+            # OTHER store move: keep those cases to one store so that the answers do not depend on the schedule
+            lookups.append([b'ppget' if fits and rng.chance(1, 4) else b'get', k])
+        nthr = len(lookups)
+        sched = [rng.below(nthr) for _ in range(rng.range(1, 30))]
+        out.append([1 if rng.chance(3, 4) else 0, cap, files, lookups, sched, rng.below(7), BALLAST])
+    return out
+
+
+def conc_monitor(case, out):
+    """The property on the real DiskCache: every simultaneous lookup of an entry that is in the read-only
+    cache (which fits its size) is served, also the ones that arrive while the cache is still being opened;
+    absent entries miss; the tree is unchanged."""
+    wrap, cap, files, lookups, sched, scan, ballast = case
+    if not isinstance(out, list) or len(out) != 3 or len(out[0]) != len(lookups) or len(out[1]) != len(lookups):
+        return ['malformed implementation output: %s' % (out,)]
+    burst, again, same = out
+    vs = []
+    present = {f[0]: f[1] for f in files}
+    fits = sum(present.values()) <= cap
+    for phase, answers in (('issued simultaneously right after the read-only cache was started', burst),
+                           ('repeated afterwards', again)):
+        for i, ((t, k), a) in enumerate(zip(lookups, answers)):
+            p = main_path(k) if t == b'get' else pp_path(k)
+            good, bad = (b'hit', b'miss') if t == b'get' else (b'found', b'none')
+            if p in present and fits and (t != b'get' or present[p] >= 22) and a != good:
+                vs.append('lookup %d (%s %s) %s: the entry is in the cache but the answer was %s'
+                          % (i, t.decode(), k.decode(), phase, a.decode()))
+            if p not in present and a != bad:
+                vs.append('lookup %d (%s %s) %s: absent entry answered %s' % (i, t.decode(), k.decode(), phase, a.decode()))
+    if same != 1:
+        vs.append('the read-only cache directory changed during concurrent lookups')
+    return vs
+
+
+def conc_stats(case, out):
+    ks = ['threads=%d' % len(case[3]), 'fits=%d' % (1 if sum(f[1] for f in case[2]) <= case[1] else 0), 'scan=%d' % case[5]]
+    try:
+        for a in out[0]:
+            ks.append('burst=' + a.decode())
+    except Exception:
+        pass
+    return ks
+
+
+def conc_shrink(case):
+    wrap, cap, files, lookups, sched, scan, ballast = case
+    for i in range(len(lookups)):
+        if len(lookups) > 2:
+            yield [wrap, cap, files, lookups[:i] + lookups[i + 1:], [t for t in sched if t < len(lookups) - 1], scan, ballast]
+    for i in range(len(files)):
+        yield [wrap, cap, files[:i] + files[i + 1:], lookups, sched, scan, ballast]
+
+
 def legs(tier):
     def gen_ro(rng, tier):
         if tier == 'thorough':
@@ -319,6 +395,12 @@ def legs(tier):
                  'restarts with other mode/size, whole requests) over random populated directories (result entries, preprocessor '
                  'entries, stale temp files, stray files; sizes around the capacity); non-trivial = a lookup was served or a store '
                  'attempted or the directory does not fit the size'),
+        Leg('conc', lambda rng, tier: gen_conc(rng, 48 if tier == 'thorough' else 12), monitor=conc_monitor,
+            stats=conc_stats, shrink=conc_shrink, shards=4,
+            rule='4-8 simultaneous lookups (result and preprocessor store, present and absent keys) right after a read-only '
+                 'DiskCache / ReadOnlyStorage(DiskCache) was created over a populated directory with %d ballast directories '
+                 '(scan takes tens of ms; the other lookups arrive 3 ms after the first), then the same lookups sequentially; '
+                 'model run under a PRNG schedule + scan length, answers are schedule-independent' % BALLAST),
         Leg('config', lambda rng, tier: gen_config(), monitor=config_monitor, stats=config_stats,
             rule='EXHAUSTIVE: 62 file settings (no file, no section, [cache.disk] with dir/size/rw_mode/preprocessor sub-table '
                  'variants) x 160 environments (each of the 4 variables unset / valid values / invalid value)'),
